@@ -42,6 +42,12 @@ def run(ctx):
     # ---- R3 single serializer: message sinks
     _sinks(ctx)
 
+    # ---- "parsing the bytes gives the value back": the repository's one parser of metadata files
+    # reads the bytes as they are (binary, default hooks) - C08-R2
+    from .c08 import loader_model
+
+    loader_model(ctx.sub("DEP-C08"), "R2")
+
     # ---- R4 total on what json.dumps takes: canonserialize fails only where json.dumps (or the
     # encoding of its ASCII result) fails - a pre-check of the value turns payloads that have
     # canonical bytes into payloads that have none
